@@ -40,3 +40,95 @@ package bytecode
 //@   ensures user_space_address: result0 < 0x7fffffff00000000
 //@   ensures nil_is_zero: trampoline == nil ==> result0 == 0
 //@   ensures function_of_value: result0 == trampoline_ptr(trampoline)
+
+// ---- little-endian helpers (binary.go) ----------------------------------------------------------------------
+
+//@ func (littleEndian) Int16
+//@   props C03
+//@   requires room: len(b) >= 2
+//@   assigns nothing
+//@   ensures value: result == int16(le16at(b, 0))
+//@ func (littleEndian) Int32
+//@   props C03
+//@   requires room: len(b) >= 4
+//@   assigns nothing
+//@   ensures value: result == int32(le32at(b, 0))
+//@ func (littleEndian) Int64
+//@   props C03
+//@   requires room: len(b) >= 8
+//@   assigns nothing
+//@   ensures value: result == int64(le64at(b, 0))
+//@ func (littleEndian) PutInt16
+//@   props C03
+//@   requires room: len(b) >= 2
+//@   assigns b[0:2]
+//@   ensures stored: le16at(b, 0) == uint16(v)
+//@ func (littleEndian) PutInt32
+//@   props C03
+//@   requires room: len(b) >= 4
+//@   assigns b[0:4]
+//@   ensures stored: le32at(b, 0) == uint32(v)
+//@ func (littleEndian) PutInt64
+//@   props C03
+//@   requires room: len(b) >= 8
+//@   assigns b[0:8]
+//@   ensures stored: le64at(b, 0) == uint64(v)
+
+// ---- displacement decoding / re-encoding (addr.go) ------------------------------------------------------------
+
+// sdisp(b, i, n): the signed little-endian displacement of width n stored at b[i:].
+//@ pure func sdisp(b []byte, i int, n int) int = ite(n == 1, int(int8(b[i])), ite(n == 2, int(int16(le16at(b, i))), ite(n == 4, int(int32(le32at(b, i))), int(le64at(b, i)))))
+
+//@ func DecodeAddress
+//@   props C03
+//@   requires room: (len == 1 || len == 2 || len == 4 || len == 8) ==> len(bytes) >= len
+//@   assigns nothing
+//@   ensures value: result == sdisp(bytes, 0, len)
+//@   panics_only_if bad_width: !(len == 1 || len == 2 || len == 4 || len == 8)
+
+//@ func isByteOverflow
+//@   props C03
+//@   assigns nothing
+//@   ensures spec: result == (v > 127 || v < -128)
+//@ func isInt16Overflow
+//@   props C03
+//@   assigns nothing
+//@   ensures spec: result == (v > 32767 || v < -32768)
+
+//@ func toInst
+//@   props C03
+//@   assigns nothing
+//@   fresh
+//@   ensures len: len(result) == len(ops) + len(addr)
+//@   ensures ops_then_addr: (forall i int :: 0 <= i && i < len(ops) ==> result[i] == ops[i]) && (forall i int :: 0 <= i && i < len(addr) ==> result[len(ops) + i] == addr[i])
+
+// opExpand as initialised by the package (assumed: package initialisers have run).
+//@ pure func opexpand_entry(k uint32, n int, b0 byte, b1 byte) bool = has(opExpand, k) && len(opExpand[k]) == n && opExpand[k][0] == b0 && (n == 2 ==> opExpand[k][1] == b1) && arr(opExpand[k]) != textref
+//@ pure func opexpand_wf() bool = opExpand != nil && (forall k uint32 :: has(opExpand, k) == (k == 0x74 || k == 0x76 || k == 0x7F || k == 0xEB))
+//@   | && opexpand_entry(0x74, 2, 0x0F, 0x84) && opexpand_entry(0x76, 2, 0x0F, 0x86) && opexpand_entry(0x7F, 2, 0x0F, 0x8F) && opexpand_entry(0xEB, 1, 0xE9, 0)
+//@ pure func fits8(x int) bool = -128 <= x && x <= 127
+//@ pure func fits16(x int) bool = -32768 <= x && x <= 32767
+//@ pure func fits32(x int) bool = -0x80000000 <= x && x <= 0x7fffffff
+//@ pure func same_prefix(r []byte, ops []byte) bool = forall i int :: 0 <= i && i < len(ops) ==> r[i] == ops[i]
+
+// EncodeAddress re-encodes the displacement of an instruction `ops ++ addr` that moves by -add bytes:
+// the result must denote the same absolute target, i.e. (new length + new displacement) ==
+// (old length + val + add), or the function must panic.  Silent wrap-around is a violation.
+//@ func EncodeAddress
+//@   props C03
+//@   requires fields: len(ops) >= 1 && len(ops) <= 15 && ((addrLen == 1 || addrLen == 2 || addrLen == 4 || addrLen == 8) ==> len(addr) == addrLen)
+//@   requires short_branch_shape: (addrLen == 1 && has(opExpand, uint32(ops[0])) ==> len(ops) == 1) && (addrLen == 2 ==> len(ops) >= 2 && ops[0] != 0)
+//@   requires val_is_field_value: (addrLen == 1 ==> fits8(val)) && (addrLen == 2 ==> fits16(val)) && (addrLen == 4 ==> fits32(val))
+//@   requires table: opexpand_wf()
+//@   requires separate: arr(ops) != textref && arr(addr) != textref
+//@   assume image_span: -0x7fff0000 <= add && add <= 0x7fff0000 && (addrLen == 4 ==> fits32(val + add))
+//@   assigns addr[0:addrLen]
+//@   fresh
+//@   ensures form: len(result) == len(ops) + addrLen || (addrLen <= 2 && 5 <= len(result) && len(result) <= 6)
+//@   ensures widening_is_growth: len(result) >= len(ops) + addrLen
+//@   ensures in_place_same_opcode: len(result) == len(ops) + addrLen ==> same_prefix(result, ops)
+//@   ensures in_place_same_target: len(result) == len(ops) + addrLen ==> sdisp(result, len(ops), addrLen) == val + add
+//@   ensures widened_opcode: len(result) != len(ops) + addrLen && addrLen == 1 ==> same_prefix(result, opExpand[uint32(ops[0])]) && len(result) == len(opExpand[uint32(ops[0])]) + 4
+//@   ensures widened_same_target: len(result) != len(ops) + addrLen ==> len(result) + sdisp(result, len(result) - 4, 4) == len(ops) + addrLen + val + add
+//@   panics_only_if cannot_encode: !(addrLen == 1 || addrLen == 2 || addrLen == 4 || addrLen == 8) || (addrLen == 1 && !fits8(val + add) && !has(opExpand, uint32(ops[0])))
+//@     | || (addrLen == 2 && !fits16(val + add))
